@@ -539,6 +539,8 @@ class Exec(BufMixin):
             r = self.buf_is(a, b)
             if r is not NotImplemented:
                 return r if opn == 'Is' else b_not(r)
+        if isinstance(a, Obj) and isinstance(b, Obj) and opn in ('Is', 'IsNot', 'Eq', 'NotEq'):
+            return (a.oid == b.oid) == (opn in ('Is', 'Eq'))
         if isinstance(a, Arr) and isinstance(b, Arr) and opn in ('Is', 'IsNot'):
             return (a is b) == (opn == 'Is')
         if (a is None or b is None) and opn in ('Is', 'IsNot', 'Eq', 'NotEq'):
